@@ -1,5 +1,7 @@
-(* Correspondence cases for C15.  A case is one client-side page chain: the listing the server pages
-   over (taken from the model-level listing, not from the paged RPC), whether the request's read
+(* Correspondence cases for C15.  A case is one client-side page chain: the id fields of the items in
+   the order of the MODEL-LEVEL listing (Model.Modes(), ListHails(), ...: ascending by the key each item
+   is stored under, which is the id itself unless the model was built with an id interceptor - then
+   [keys] is NOT ascending; the handler's re-sort is part of the model, Pages/Listing.v), whether the request's read
    mask leaves the key field out, the page size of EACH request of the chain (they may differ), the
    first token (raw text + what the library makes of it: the key it names and the bytes of the
    unknown fields it carries, which the server hands on in its own tokens), and everything the real handler answered
@@ -13,12 +15,16 @@
                down the expected remainder of the listing page by page; page sizes and total_size
                respected, chain ended by an empty token within n + 2 calls, bad inputs answered by
                one error status; a recovered panic is never acceptable. *)
-From SC Require Import Base.Prelude Pages.Codec Pages.PagerCfg Pages.Pager.
+From SC Require Import Base.Prelude Pages.Codec Pages.PagerCfg Pages.Pager Pages.Listing.
 
 Inductive c15case :=
 | KKeys (s : server) (keys : list string) (dropkey : bool) (sizes : list Z) (raw0 : string) (tok : token)
         (extra : list Z) (obs : list (outcome string))
-| KWaste (ids : list string) (sizes : list Z) (tok : wtoken) (obs : list (outcome Z)).
+| KWaste (ids : list string) (sizes : list Z) (tok : wtoken) (obs : list (outcome Z))
+(* one collection: the (id, key) pairs added (key = what the model's id interceptor maps the id to;
+   the id itself when there is none), in the order they were added, and the id fields of the
+   model-level listing (Model.Modes(), ListHails(), ... = resource.Collection.List) *)
+| KListing (kv : list (string * string)) (listed : list string).
 
 (* page sizes of a chain written as a repeating pattern: request i uses pattern[i mod |pattern|] *)
 Definition cyc (p : list Z) (fuel : nat) : list Z :=
@@ -55,10 +61,12 @@ Definition first_token_consistent (c : pager_cfg) (raw0 : string) (tok : token) 
 Definition agrees (c : c15case) : bool :=
   match c with
   | KKeys s keys dropkey sizes raw0 tok extra obs =>
-      list_eqb (outcome_eqb String.eqb) obs (key_chain (cfg_of s) keys dropkey sizes (WFirst tok extra))
+      list_eqb (outcome_eqb String.eqb) obs (list_chain (resorts_of s) (cfg_of s) keys dropkey sizes (WFirst tok extra))
       && first_token_consistent (cfg_of s) raw0 tok
   | KWaste ids sizes tok obs =>
       list_eqb (outcome_eqb Z.eqb) obs (waste_chain ids sizes tok)
+  | KListing kv listed =>
+      list_eqb String.eqb listed (coll_listing (assoc_key kv) (map fst kv))
   end.
 
 (* ---- the property, as a predicate on observations ---- *)
@@ -128,33 +136,53 @@ Definition waste_expected (ids : list string) (tok : wtoken) : list string :=
   | _ => rev ids
   end.
 
-Definition C15_ok (c : c15case) : bool :=
-  match c with
-  | KKeys s keys dropkey sizes raw0 tok extra obs =>
-      match tok with
-      | TokMalformed => rejected obs
-      | _ => enumerates (expected_after keys tok) (zlen keys) sizes obs && (zlen obs <=? zlen keys + 2)
-      end
-  | KWaste ids sizes tok obs =>
-      if waste_token_bad (zlen ids) tok then rejected obs
-      else enumerates (waste_expected ids tok) (zlen ids) sizes obs && (zlen obs <=? zlen ids + 2)
-  end.
-
-(* hypotheses of the theorems: the listing is strictly ascending (sorted, duplicate free), no key is
-   the empty string, keys are valid UTF-8 (they are proto string fields), the collection size fits
-   total_size (int32), and the client is prepared to make more calls than there are items *)
 Fixpoint strictly_sorted (l : list string) : bool :=
   match l with
   | a :: (b :: _) as r => String.ltb a b && strictly_sorted r
   | _ => true
   end.
+
+(* The order of the listing.  A page token names an id and stands for "the items after it", which
+   only means something in the order of the ids: the paged listing is the ids in ascending (Go
+   string) order.  A chain that starts without a token may as well follow the order of the
+   model-level listing (the order of the collection's keys) as long as every item comes once. *)
+Definition C15_ok (c : c15case) : bool :=
+  match c with
+  | KKeys s keys dropkey sizes raw0 tok extra obs =>
+      match tok with
+      | TokMalformed => rejected obs
+      | TokEmpty =>
+          (enumerates (sort_keys keys) (zlen keys) sizes obs || enumerates keys (zlen keys) sizes obs)
+          && (zlen obs <=? zlen keys + 2)
+      | _ => enumerates (expected_after (sort_keys keys) tok) (zlen keys) sizes obs && (zlen obs <=? zlen keys + 2)
+      end
+  | KWaste ids sizes tok obs =>
+      if waste_token_bad (zlen ids) tok then rejected obs
+      else enumerates (waste_expected ids tok) (zlen ids) sizes obs && (zlen obs <=? zlen ids + 2)
+  | KListing kv listed =>
+      (* every added id once, in strictly ascending order of the keys *)
+      (zlen listed =? zlen kv) && forallb (fun x => existsb (String.eqb x) listed) (map fst kv)
+      && strictly_sorted (map (assoc_key kv) listed)
+  end.
+
+(* hypotheses of the theorems: the ids are pairwise different (in whatever order the collection
+   lists them; [keys_wf] is what the theorems about the pager proper assume of the re-sorted listing), no id is
+   the empty string, ids are valid UTF-8 (they are proto string fields), the collection size fits
+   total_size (int32), and the client is prepared to make more calls than there are items *)
 Definition keys_wf (keys : list string) : bool :=
   strictly_sorted keys && negb (existsb (String.eqb EmptyString) keys) && forallb key_utf8 keys.
 
+(* [ids_wf] with the quadratic pairwise comparison replaced by "the sorted ids are strictly
+   ascending" (the same thing: ListingProofs.ids_wf_fast_spec; linear on a listing that is
+   ascending already) *)
+Definition ids_wf_fast (ids : list string) : bool :=
+  strictly_sorted (sort_keys ids) && negb (existsb (String.eqb EmptyString) ids) && forallb key_utf8 ids.
+
 Definition C15_guard (c : c15case) : bool :=
   match c with
-  | KKeys _ keys _ sizes _ _ extra _ => keys_wf keys && in32 (zlen keys) && (zlen keys <? zlen sizes) && forallb is_byte_b extra
+  | KKeys _ keys _ sizes _ _ extra _ => ids_wf_fast keys && in32 (zlen keys) && (zlen keys <? zlen sizes) && forallb is_byte_b extra
   | KWaste ids sizes _ _ => in32 (zlen ids) && (zlen ids <? zlen sizes)
+  | KListing kv _ => nodupb (map (assoc_key kv) (map fst kv))     (* the keys of a map *)
   end.
 
 Definition judge (c : c15case) : Z :=
